@@ -53,6 +53,9 @@ def configs(tier):
                 cfgs.append(dict(group='imputer', shape=shape, use_storage=use_storage, direct=direct,
                                  q=2 if (use_storage or tier == 'thorough') else 1, _cost=200))
     cfgs.append(dict(group='paths_agree'))
+    for shape in ('leaf', 'stump'):
+        cfgs.append(dict(group='imputer_history', shape=shape, vary='a', _cost=600))
+        cfgs.append(dict(group='imputer_history', shape=shape, vary='c', _cost=600))
     # three updates: both leaves of a branch hold a reservoir before learn_one prunes it (several reservoirs outdated at once)
     cfgs.append(dict(group='storage', shape='stump', vary='a', T=3, _cost=5000))
     return cfgs
@@ -392,3 +395,32 @@ def _is_tree_value(v, f, ctx):
         name = str(v.t)
         return name.startswith('normal_') or name.startswith('treepred_')
     return getattr(v, '_tag', '').startswith(('normal_', 'treepred_')) if hasattr(v, '_tag') else False
+
+
+def _imputer_history(env, cfg, ctx):
+    """impute(x); storage.update(x) - which may split or prune x's own leaf; impute(x) again with the SAME imputer and an
+    equal instance: the second imputation uses the reservoir of the leaf x is routed to NOW"""
+    ts, trees = _make_storage(env, cfg, restructure=True)
+    x0 = _row(env, 0)
+    ts.update(x0)
+    model = UFModel(env, FEATURES)
+    imp = guarded(env, 'ctor', TreeImputer, model, ts, direct_predict_numeric=False, use_storage=True)
+    x = _row(env, 5)
+    S = [cfg['vary']]
+    guarded(env, 'impute#1', imp.impute, list(S), x, 1)
+    guarded(env, 'update', ts.update, x)                     # the tree of feature `vary` may be restructured here
+    x_again = dict(x)                                        # an equal-valued instance (e.g. a duplicate row / reused dict)
+    f = cfg['vary']
+    res_now = {k: list(r.get_data()[0]) for k, r in ts.data_reservoirs[f].items()}
+    lid, _leaf = _leaf_id(trees[f], {g: x_again[g] for g in FEATURES})
+    n0 = len(model.calls)
+    guarded(env, 'impute#2', imp.impute, list(S), x_again, 1)
+    z = model.calls[n0]
+    if lid in res_now:
+        env.claim('second_imputation_uses_the_current_leaf_reservoir', any(same_term(z[f], row[f]) for row in res_now[lid]),
+                  detail=f"feature {f}: value not in the reservoir of the leaf the instance is routed to after the update")
+    else:
+        env.claim('fallback_only_without_reservoir', _is_tree_value(z[f], f, ctx))
+    for g in FEATURES:
+        if g != f:
+            env.claim('only_requested_features_change', same_term(z[g], x_again[g]))
